@@ -4,6 +4,9 @@
 //@ fn PayloadHistory::session
 //@ spec
     ensures res == self.session,
+//@ fn PayloadHistory::session_and_serial
+//@ spec
+    ensures res == (self.session, self.cur()),
 //@ fn PayloadHistory::metrics
 //@ spec
     ensures res == self.metrics,
